@@ -13,8 +13,10 @@ def make(rng, tier):
         ops = [("set", b"k", b"v1"), ("set", b"a", b"1")]
         for _ in range(r.rng(0, 4)):
             ops.append(("set", r.choice([b"k", b"a", b"b"]), r.bytes(r.rng(0, 20))))
+        # more gets than the pool has readers: every one of them must fail, none may wait for a reader
+        extra_gets = [("oldget", r.choice([b"k", b"a", b"absent"])) for _ in range(cfg.get("conc", 1) + 2)]
         ops += [("waitthreads", 1, 3000), ("ls",), ("drop",),
-                ("oldget", b"k"), ("oldset", b"k", b"after-close"), ("olddel", b"k"), ("oldmerge",), ("oldsync",),
+                ("oldget", b"k"), ("oldset", b"k", b"after-close"), ("olddel", b"k"), ("oldmerge",), ("oldsync",)] + extra_gets + [
                 ("waitthreads", 0, 3000), ("ls",), ("reopen",), ("get", b"k"), ("get", b"a"), ("waitthreads", 1, 3000)]
         cycles = r.rng(3, 12)
         for cy in range(cycles):
@@ -26,12 +28,16 @@ def make(rng, tier):
         ops += [("waitthreads", 1, 3000), ("waitfds", 2, 3000), ("get", b"k")]
         c = S.Case("x%d" % i, cfg, ops)
         c.cycles = cycles
+        c.policy = ["always", "never", "window:open", "window:closed"][i % 4]
+        if c.policy == "never":
+            # with policy never and no interval sync both periodic tasks return at once: the worker thread ends by itself
+            c.ops = [("waitthreads", 0, o[2]) if o[0] == "waitthreads" else o for o in c.ops]
         cases.append(c)
     return cases
 
 
 def script(c):
-    out = [c.header() + " policy=always interval=3600000 tdead=1000000000 tfrag=1/1"]
+    out = [c.header() + " policy=%s interval=3600000 tdead=1000000000 tfrag=1/1" % c.policy]
     for o in c.ops:
         if o[0] in ("oldset",):
             out.append("oldset %s %s" % (o[1].hex(), o[2].hex()))
@@ -89,9 +95,16 @@ def main(tier, seed):
             nobs += 1
             if at(k) != "err:Storage has been closed":
                 bad.append("%s through a handle that outlived the store returned %s instead of the closed error" % (k, at(k)))
+        for j, l in enumerate([l for o, l in seq if o[0] == "oldget"]):
+            nobs += 1
+            if l != "err:Storage has been closed":
+                bad.append("get number %d through a handle that outlived the store: %s instead of the closed error (pool of %d readers)"
+                           % (j + 1, l, c.cfg.get("conc", 1)))
+                break
         if at("ls", 0) != at("ls", 1):
             bad.append("the directory changed after the store was closed: %s -> %s" % (at("ls", 0), at("ls", 1)))
-        if at("waitthreads", 0) != "threads 1":
+        open_threads = "threads 0" if c.policy == "never" else "threads 1"
+        if at("waitthreads", 0) != open_threads:
             bad.append("expected one background thread while open, saw %s" % at("waitthreads", 0))
         if at("waitthreads", 1) != "threads 0":
             bad.append("the background worker is still alive 3 s after the store was dropped (its next timer is an hour away): %s" % at("waitthreads", 1))
@@ -101,7 +114,7 @@ def main(tier, seed):
         if gets and gets[0] != "some:7631" and all(o != ("set", b"k") for o in []):
             pass
         # after many open/close cycles: exactly one worker thread, and a bounded number of descriptors
-        if at("waitthreads", 4) != "threads 1":
+        if at("waitthreads", 4) != open_threads:
             bad.append("after %d open/close cycles %s background threads exist" % (c.cycles, at("waitthreads", 4)))
         f1, f2 = at("waitfds", 0), at("waitfds", 1)
         if f1 is None or f2 is None or int(f2.split()[1]) > 2 or int(f1.split()[1]) > 2:
@@ -119,7 +132,9 @@ def main(tier, seed):
         "checker_cmd": "make -C coq Props/C17.vo (coqc 8.16.1) ; bin/check C17",
         "trusted_base": TRUSTED,
         "evaluations": len(cases), "observations": nobs, "distinct_nontrivial": len(set(c.cycles for c in cases)) + 1,
-        "rule": "per process: write, drop the store while a handle survives, try get/set/del/merge/sync through it, compare directory "
+        "policies": sorted(set(c.policy for c in cases)),
+        "rule": "per process (merge policy always / never / window open all day / window closed now, in turn): write, drop the store while a handle "
+                "survives, try get/set/del/merge/sync through it and then pool-size+2 more gets (each with a 3 s deadline), compare directory "
                 "listings, count background threads (/proc/self/task/*/comm) 60 ms after the drop with a one-hour timer, reopen, then "
                 "3-12 open/close cycles and count threads and store descriptors (/proc/self/fd); distinct = cycle counts",
         "samples": [{"ops": [S.show_op(o) if o[0] in ("set", "get", "del") else str(o) for o in cases[0].ops[:16]]}],
